@@ -28,6 +28,9 @@ pub struct LStep {
     /// the other outcome the statement allows for this step (equal to `res` almost always)
     #[serde(default)]
     pub alt: Option<String>,
+    /// instances that cease to exist in this step
+    #[serde(default)]
+    pub rel: Vec<usize>,
     pub dropped: Vec<u32>,
     pub new: usize,
 }
@@ -235,6 +238,9 @@ impl LifeRunner {
         let mut slots: Vec<Option<Unimock>> = (0..=max_inst).map(|_| None).collect();
         slots[0] = Some(life_mock());
         let mut gone: std::collections::BTreeSet<u32> = Default::default();
+        // values make_mut kept although it may release them: id -> owning instance; zero-sized ones only by number
+        let mut owed: std::collections::BTreeMap<u32, usize> = Default::default();
+        let mut owed_z: std::collections::BTreeMap<usize, u32> = Default::default();
         let mut ok = true;
         let mut zseen = ZDROPS.load(std::sync::atomic::Ordering::SeqCst);
         let mut kinds: Kinds = Default::default();
@@ -486,13 +492,63 @@ impl LifeRunner {
                 .map(|v| if *v == STORED { STORED } else { LENT_BASE + *v })
                 .filter(|id| counted(&kinds, *id))
                 .collect();
+            // make_mut may, but need not, release what its instance lent earlier: values it keeps are owed until a
+            // later make_mut of the same instance or the end of that instance, whichever releases them
+            if ev.op == "make_mut" {
+                // instances parked in this instance's chain go the way of the other earlier values: what they still
+                // owe is owed by this instance from now on
+                for r in &st.rel {
+                    for (_, o) in owed.iter_mut() {
+                        if o == r {
+                            *o = ev.i;
+                        }
+                    }
+                    if let Some(z) = owed_z.remove(r) {
+                        *owed_z.entry(ev.i).or_insert(0) += z;
+                    }
+                }
+                let kept: Vec<u32> = exp.iter().filter(|id| !now.contains(id)).cloned().collect();
+                for id in kept {
+                    owed.insert(id, ev.i);
+                    exp.retain(|x| *x != id);
+                }
+            }
+            let paid: Vec<u32> = now
+                .iter()
+                .filter(|id| !exp.contains(id) && owed.get(id).map_or(false, |o| (ev.op == "make_mut" && *o == ev.i) || st.rel.contains(o)))
+                .cloned()
+                .collect();
+            for id in &paid {
+                owed.remove(id);
+                exp.push(*id);
+            }
+            let overdue: Vec<u32> = owed.iter().filter(|(_, o)| ev.op != "make_mut" && st.rel.contains(o)).map(|(id, _)| *id).collect();
+            exp.extend(overdue.iter().cloned());      // must have been released with their instance
+            for id in &overdue {
+                owed.remove(id);
+            }
             exp.sort();
+            exp.dedup();
             now.sort();
             // zero-sized lent values: only their number can be observed
-            let zexp = st.dropped.iter().filter(|v| **v != STORED && is_zst(&kinds, LENT_BASE + **v)).count() as u32;
+            let mut zexp = st.dropped.iter().filter(|v| **v != STORED && is_zst(&kinds, LENT_BASE + **v)).count() as u32;
             let znow = ZDROPS.load(std::sync::atomic::Ordering::SeqCst);
             let zdelta = znow - zseen;
             zseen = znow;
+            if ev.op == "make_mut" {
+                let mine = owed_z.remove(&ev.i).unwrap_or(0);
+                if zdelta < zexp + mine {
+                    owed_z.insert(ev.i, zexp + mine - zdelta.min(zexp + mine));
+                    zexp = zdelta.min(zexp + mine);
+                } else {
+                    zexp += mine;
+                }
+            }
+            if ev.op != "make_mut" {
+                for o in &st.rel {
+                    zexp += owed_z.remove(o).unwrap_or(0);
+                }
+            }
             let res_ok = res == st.res || st.alt.as_deref() == Some(res.as_str());
             if zdelta != zexp && res_ok && now == exp {
                 ok = false;
